@@ -414,7 +414,11 @@ def gen_struct(r, name, enums, fixed_structs, bits_types, allow_dynamic=True, nf
             f = Field(fname("d"), ("array", elem, None), pos, esz, dyn_count=ln, attr=attr())
             f.esz = esz
             fields.append(f)
-    # the dependency ordering is exercised by moving a tag/length field *after* its users
+    # the dependency ordering is exercised by declaring the tag/length fields *after* their
+    # users (offsets are explicit, so the layout is unchanged)
+    if tags and r.random() < 0.45:
+        fields = [f for f in fields if not getattr(f, "small", False)] + \
+                 [f for f in fields if getattr(f, "small", False)]
     st = StructT(name, "struct", fields, static_size)
     return st
 
